@@ -255,6 +255,11 @@ func c12Universe() []GM {
 	add(func(g *GM) { g.Minutes = 11 })
 	add(func(g *GM) { g.Locked = true })
 	add(func(g *GM) { g.Frames[0].Args.Items[1] = ArgM{TooLarge: true} })
+	// the same function and line in a file of the same name in another directory (two
+	// versions of a module, two directory-less cgo files), in a frame and in the creator
+	add(func(g *GM) { g.Frames[0].File = "/b/f.go" })
+	add(func(g *GM) { g.Frames[0].File = "/a/v2/f.go" })
+	add(func(g *GM) { c := *g.Creator; c.File = "/b/s.go"; g.Creator = &c })
 	// started by the same go statement from different parents (go >= 1.21 prints the parent)
 	for _, parent := range []int{5, 7} {
 		add(func(g *GM) { c := *g.Creator; c.Parent = parent; g.Creator = &c })
